@@ -67,7 +67,75 @@ def replay(p):
             sw = np.swapaxes(Pt, a, a + 1)
             bad |= not H.close(sw, Pt if kind == 'sym' else -Pt, TOL)
         return bool(bad), f'get_{kind}metric_basis({d},{r}) is not an orthonormal basis of the {kind}metric subspace'
+    if what == 'antisym_proj':
+        mats = [np.array(m, dtype=float) for m in p['mats']]
+        INDEX = tuple(p['INDEX'])
+        got = HI.tensor2d_project_to_antisym_basis(mats, INDEX)
+        want = antisym_ref_numeric(mats, INDEX)
+        return (got.shape != want.shape or not H.close(got, want, TOL)), f'tensor2d_project_to_antisym_basis(INDEX={INDEX}) differs from (1/r!) sum_(s,t) sgn(s)sgn(t) prod_k M_k[I_s(k),J_t(k)] by {np.abs(got - want).max() if got.shape == want.shape else "shape"}'
+    if what == 'sym_proj':
+        vs = [np.array(v, dtype=float) for v in p['vecs']]
+        INDEX = tuple(p['INDEX'])
+        got = HI.project_to_symmetric_basis(vs, INDEX)
+        full = functools_reduce_kron([vs[i] for i in INDEX])
+        want = HI.get_symmetric_basis(len(vs[0]), len(INDEX)) @ full
+        return (got.shape != want.shape or not H.close(got, want, TOL)), f'project_to_symmetric_basis(INDEX={INDEX}) differs from <symmetric basis, v_i1 (x) ... (x) v_im>'
     raise ValueError(what)
+
+
+def functools_reduce_kron(vs):
+    out = vs[0]
+    for v in vs[1:]:
+        out = np.kron(out, v)
+    return out
+
+
+def _sgn(perm):
+    s = 1
+    for i in range(len(perm)):
+        for j in range(i + 1, len(perm)):
+            if perm[i] > perm[j]:
+                s = -s
+    return s
+
+
+def antisym_ref_numeric(mats, INDEX):
+    r = len(INDEX)
+    dA, dB = mats[0].shape
+    Is, Js = list(itertools.combinations(range(dA), r)), list(itertools.combinations(range(dB), r))
+    out = np.zeros((len(Is), len(Js)))
+    perms = [(pp, _sgn(pp)) for pp in itertools.permutations(range(r))]
+    for a, I in enumerate(Is):
+        for b, J in enumerate(Js):
+            acc = 0.0
+            for s_, ss in perms:
+                for t_, st in perms:
+                    term = ss * st
+                    for k in range(r):
+                        term = term * mats[INDEX[k]][I[s_[k]], J[t_[k]]]
+                    acc += term
+            out[a, b] = acc / math.factorial(r)
+    return out
+
+
+def antisym_ref_symbolic(mats, INDEX):
+    r = len(INDEX)
+    dA, dB = mats[0].shape
+    Is, Js = list(itertools.combinations(range(dA), r)), list(itertools.combinations(range(dB), r))
+    out = np.empty((len(Is), len(Js)), dtype=object)
+    perms = [(pp, _sgn(pp)) for pp in itertools.permutations(range(r))]
+    inv = S.as_sc(1) / math.factorial(r)
+    for a, I in enumerate(Is):
+        for b, J in enumerate(Js):
+            acc = SC(ir.ZERO)
+            for s_, ss in perms:
+                for t_, st in perms:
+                    term = S.as_sc(ss * st)
+                    for k in range(r):
+                        term = term * S.as_sc(mats[INDEX[k]][I[s_[k]], J[t_[k]]])
+                    acc = acc + term
+            out[a, b] = acc * inv
+    return out
 
 
 REPLAYERS = {'c20': replay}
@@ -167,4 +235,40 @@ def run(chk):
             ok, what = replay({'what': 'basis', 'd': d, 'r': r, 'kind': kind})
             chk.add(f'get_{kind}metric_basis({d},{r}): orthonormal rows, projector (anti)symmetric under every transposition, dimension C(.,.) (ground, binary64 tol 1e-9)', [], ir.bconst(not ok),
                     key=f'get_{kind}metric_basis', replay=('c20', {'what': 'basis', 'd': d, 'r': r, 'kind': kind}))
+    # ---- (d) the building blocks of the hierarchy matrix on symbolic generators, including repeated generators (the INDEX short-cuts):
+    #      tensor2d_project_to_antisym_basis == the r x r mixed minors by definition; project_to_symmetric_basis == <orthonormal symmetric basis, v (x) ... (x) v>
+    chk.fn('numqi.matrix_space._hierarchy.permutation_with_antisymmetric_factor', 'numqi.matrix_space._hierarchy.get_antisymmetric_basis_index', 'numqi.matrix_space._hierarchy.get_symmetric_basis_index')
+    patterns = [(0,), (0, 0), (0, 1), (1, 0), (0, 0, 0), (0, 0, 1), (0, 1, 1), (0, 1, 2), (1, 0, 0)] + ([] if quick else [(2, 0, 1), (1, 1, 1), (0, 2, 2)])
+    ctx = S.new_ctx()
+    with facade.patched():
+        for dA, dB in ((3, 3), (2, 3)) if quick else ((3, 3), (2, 3), (3, 4), (4, 4)):
+            mats = [A.plain(H.re_array(f'am{dA}{dB}_{j}_', (dA, dB))) for j in range(3)]
+            for INDEX in patterns:
+                if len(INDEX) > min(dA, dB) or (dA * dB > 9 and len(INDEX) == 3 and quick):
+                    continue
+                chk.configurations += 1
+                got = HI.tensor2d_project_to_antisym_basis([A.wrap(m.copy(), np.float64) for m in mats], INDEX)
+                want = antisym_ref_symbolic(mats, INDEX)
+                ok = tuple(np.shape(got)) == want.shape
+                cl = ir.band_all(H.eq_sc(x, y) for x, y in zip(H.elems(got), want.reshape(-1))) if ok else ir.FALSE
+                chk.add(f'tensor2d_project_to_antisym_basis [{dA}x{dB}, INDEX={INDEX}] == (1/r!) sum sgn(s) sgn(t) prod_k M_k[I_s(k), J_t(k)] for all real generators', ctx.facts, cl,
+                        key='tensor2d_project_to_antisym_basis != mixed minors', replay=('c20', lambda m, mats=mats, INDEX=INDEX: {'what': 'antisym_proj', 'INDEX': list(INDEX),
+                                                                                                'mats': [np.real(H.eval_array(A.wrap(x.copy(), np.float64), H.model_env(m, [A.wrap(x.copy(), np.float64)]))).tolist() for x in mats]}))
+        for n in (2, 3):
+            vs = [A.plain(H.re_array(f'sv{n}_{j}_', n)) for j in range(3)]
+            for INDEX in patterns:
+                if len(INDEX) < 2:
+                    continue
+                chk.configurations += 1
+                got = HI.project_to_symmetric_basis([A.wrap(v.copy(), np.float64) for v in vs], INDEX)
+                full = functools_reduce_kron([vs[i] for i in INDEX])
+                Bm = HI.get_symmetric_basis(n, len(INDEX))
+                Bp = A.plain(Bm) if isinstance(Bm, A.SymArray) else np.asarray(Bm, dtype=object)
+                want = [sum((S.as_sc(Bp[row, c]) * S.as_sc(full[c]) for c in range(full.shape[0]) if not (isinstance(Bp[row, c], float) and Bp[row, c] == 0.0)), SC(ir.ZERO)) for row in range(Bp.shape[0])]
+                ge = H.elems(got)
+                cl = ir.band_all(H.eq_sc(x, y) for x, y in zip(ge, want)) if len(ge) == len(want) else ir.FALSE
+                chk.add(f'project_to_symmetric_basis [dim {n}, INDEX={INDEX}] == <orthonormal symmetric basis, v_i1 (x) ... (x) v_im> for all real vectors', ctx.facts, cl,
+                        key='project_to_symmetric_basis != definition', replay=('c20', lambda m, vs=vs, INDEX=INDEX: {'what': 'sym_proj', 'INDEX': list(INDEX),
+                                                                                   'vecs': [np.real(H.eval_array(A.wrap(x.copy(), np.float64), H.model_env(m, [A.wrap(x.copy(), np.float64)]))).tolist() for x in vs]}))
+    chk.notes_from(ctx)
     chk.solve(timeout_s=120 if quick else 600)
